@@ -447,7 +447,7 @@ fn hash_str(kind: HK, h: u32) -> String {
     }
 }
 
-fn emit_str_with<Pk: msops::HKey, Ctx: ScriptContext>(out: &mut Out, ctx: CtxK, node: &Node, op: &str,
+fn emit_str_with<Pk: msops::HKey + crate::c10b::Atom, Ctx: ScriptContext>(out: &mut Out, ctx: CtxK, node: &Node, op: &str,
     parse: fn(&str) -> Result<Miniscript<Pk, Ctx>, miniscript::Error>) {
     let w = node.wire();
     let ast_ms: Option<Miniscript<Pk, Ctx>> = ast::to_ms(node).ok();
@@ -468,6 +468,7 @@ fn emit_str_with<Pk: msops::HKey, Ctx: ScriptContext>(out: &mut Out, ctx: CtxK, 
                 out.line(&format!("C encodestr {} {} {}", ctx.name(), form, w), &script);
                 // a type or script that differs from the from_ast path is judged by execution too
                 let same = ast_ms.as_ref().map(|m| ts(&m.ty) == ts(&ms2.ty) && m.encode() == ms2.encode()).unwrap_or(false);
+                emit_deep(out, ctx, form, &ms2, ast_ms.as_ref());
                 if !same {
                     out.count("parser path: type or script differs from the from_ast path (judged by execution)");
                     out.line(&format!("J {} {} {} {} {}", op, ctx.name(), w, script, ts(&ms2.ty)), "ok");
@@ -585,6 +586,367 @@ fn emit_ctx_acceptance(out: &mut Out) {
     }
 }
 
+/* ------------------------------------------------------------------ routes (R1)
+   `Miniscript::ty` reaches users through more than `from_ast`.  Every judged fragment is pushed
+   through each of these routes; the type (and script) the route produces is compared with the
+   Lean model of the resulting AST (`C typeofstr` / `C encodestr <route>`), and whenever the
+   (type, script) pair differs from the from_ast route's - or from_ast refuses what the route
+   accepts - the route's type is judged by execution (`J typeexecq`). */
+
+/// key ids renamed (for the translate_pk route): rotate inside the id block of the key kind
+fn rot(id: u32) -> u32 { let (b, n) = if id >= 200 { (200, 10) } else if id >= 100 { (100, 4) } else { (0, 10) }; b + (id - b + 1) % n }
+
+fn rename(n: &Node) -> Node {
+    use Node::*;
+    let r = |x: &Node| Box::new(rename(x));
+    let ks = |v: &Vec<u32>| v.iter().map(|i| rot(*i)).collect::<Vec<_>>();
+    match n {
+        PkK(k) => PkK(rot(*k)), PkH(k) => PkH(rot(*k)),
+        Alt(x) => Alt(r(x)), Swap(x) => Swap(r(x)), Check(x) => Check(r(x)), DupIf(x) => DupIf(r(x)),
+        Verify(x) => Verify(r(x)), NonZero(x) => NonZero(r(x)), ZeroNotEqual(x) => ZeroNotEqual(r(x)),
+        AndV(a, b) => AndV(r(a), r(b)), AndB(a, b) => AndB(r(a), r(b)), AndOr(a, b, c) => AndOr(r(a), r(b), r(c)),
+        OrB(a, b) => OrB(r(a), r(b)), OrD(a, b) => OrD(r(a), r(b)), OrC(a, b) => OrC(r(a), r(b)), OrI(a, b) => OrI(r(a), r(b)),
+        Thresh(k, xs) => Thresh(*k, xs.iter().map(rename).collect()),
+        Multi(k, v) => Multi(*k, ks(v)), SortedMulti(k, v) => SortedMulti(*k, ks(v)),
+        MultiA(k, v) => MultiA(*k, ks(v)), SortedMultiA(k, v) => SortedMultiA(*k, ks(v)),
+        other => other.clone(),
+    }
+}
+
+struct Rot;
+impl<Pk: msops::HKey> miniscript::Translator<Pk> for Rot {
+    type TargetPk = Pk;
+    type Error = ();
+    fn pk(&mut self, pk: &Pk) -> Result<Pk, ()> { pk.id().map(|i| Pk::of(rot(i))).ok_or(()) }
+    fn sha256(&mut self, h: &Pk::Sha256) -> Result<Pk::Sha256, ()> { Ok(*h) }
+    fn hash256(&mut self, h: &Pk::Hash256) -> Result<Pk::Hash256, ()> { Ok(*h) }
+    fn ripemd160(&mut self, h: &Pk::Ripemd160) -> Result<Pk::Ripemd160, ()> { Ok(*h) }
+    fn hash160(&mut self, h: &Pk::Hash160) -> Result<Pk::Hash160, ()> { Ok(*h) }
+}
+
+/// one route result: correspondence with the model of `node`, execution judge if it differs
+/// from what from_ast gives for the same AST
+/// every node of a fragment, pre-order
+fn subs<'a, Pk: miniscript::MiniscriptKey, Ctx: ScriptContext>(ms: &'a Miniscript<Pk, Ctx>, acc: &mut Vec<&'a Miniscript<Pk, Ctx>>) {
+    use Terminal::*;
+    acc.push(ms);
+    match ms.as_inner() {
+        Alt(x) | Swap(x) | Check(x) | DupIf(x) | Verify(x) | NonZero(x) | ZeroNotEqual(x) => subs(x, acc),
+        AndV(a, b) | AndB(a, b) | OrB(a, b) | OrD(a, b) | OrC(a, b) | OrI(a, b) => { subs(a, acc); subs(b, acc) }
+        AndOr(a, b, c) => { subs(a, acc); subs(b, acc); subs(c, acc) }
+        Thresh(t) => for x in t.iter() { subs(x, acc) },
+        _ => {}
+    }
+}
+
+/// A route's result carries a type on every node, and the satisfier / lifter / analysis read those.
+/// Each proper subnode's type is compared with the from_ast route's (`reference` when it has the
+/// same tree, else from_ast of the subnode itself); a differing one is compared with the model
+/// and judged by execution.
+fn emit_deep<Pk: msops::HKey + crate::c10b::Atom, Ctx: ScriptContext>(out: &mut Out, ctx: CtxK, route: &str, ms: &Miniscript<Pk, Ctx>, reference: Option<&Miniscript<Pk, Ctx>>) {
+    let mut a = vec![]; subs(ms, &mut a);
+    if a.len() == 1 { return; }
+    let mut b = vec![];
+    if let Some(r) = reference { if r.as_inner() == ms.as_inner() { subs(r, &mut b); } }
+    for (i, sub) in a.iter().enumerate().skip(1) {
+        let same = if b.len() == a.len() { ts(&b[i].ty) == ts(&sub.ty) } else {
+            match crate::c10b::from_ms(sub).map(|n| ast::to_ms::<Pk, Ctx>(&n)) { Some(Ok(m)) => ts(&m.ty) == ts(&sub.ty), _ => false }
+        };
+        if same { continue; }
+        if let Some(n) = crate::c10b::from_ms(sub) {
+            let script = ast::hex(sub.encode().as_bytes());
+            out.count(&format!("route {}: a subnode's type differs from the from_ast route (judged by execution)", route));
+            out.line(&format!("C typeofstr {} {}/sub {}", ctx.name(), route, n.wire()), &ts(&sub.ty));
+            out.line(&format!("J typeexecq {} {} {} {}", ctx.name(), n.wire(), script, ts(&sub.ty)), "ok");
+        }
+    }
+}
+
+fn emit_route<Pk: msops::HKey + crate::c10b::Atom, Ctx: ScriptContext>(out: &mut Out, ctx: CtxK, route: &str, node: &Node, ms: &Miniscript<Pk, Ctx>) {
+    emit_route_j(out, ctx, route, node, ms, false)
+}
+
+/// `force`: judge by execution even when the from_ast route gives the same answer (used where the
+/// resulting fragment has not been executed under this type anywhere else)
+fn emit_route_j<Pk: msops::HKey + crate::c10b::Atom, Ctx: ScriptContext>(out: &mut Out, ctx: CtxK, route: &str, node: &Node, ms: &Miniscript<Pk, Ctx>, force: bool) {
+    let w = node.wire();
+    let script = ast::hex(ms.encode().as_bytes());
+    out.line(&format!("C typeofstr {} {} {}", ctx.name(), route, w), &ts(&ms.ty));
+    out.line(&format!("C encodestr {} {} {}", ctx.name(), route, w), &script);
+    let reference = ast::to_ms::<Pk, Ctx>(node).ok();
+    let same = match &reference { Some(m) => ts(&m.ty) == ts(&ms.ty) && m.encode() == ms.encode(), None => false };
+    emit_deep(out, ctx, route, ms, reference.as_ref());
+    if !same { out.count(&format!("route {}: differs from the from_ast route (judged by execution)", route)); }
+    else if force { out.count(&format!("route {}: result judged by execution", route.split(':').next().unwrap())); }
+    if !same || force {
+        out.line(&format!("J typeexecq {} {} {} {}", ctx.name(), w, script, ts(&ms.ty)), "ok");
+    }
+}
+
+fn routes_generic<Pk: msops::HKey + crate::c10b::Atom, Ctx: ScriptContext>(out: &mut Out, ctx: CtxK, node: &Node, seen: &BTreeSet<String>, strata: &mut BTreeSet<String>) {
+    use miniscript::miniscript::types::{ExtData, Type};
+    let ms: Miniscript<Pk, Ctx> = match ast::to_ms(node) { Ok(m) => m, Err(_) => return };
+    // translate_pk
+    match ms.translate_pk(&mut Rot) {
+        Ok(t) => emit_route(out, ctx, "translate", &rename(node), &t),
+        Err(_) => out.count("route translate: refused (a renamed key left the context's key table)"),
+    }
+    // the compiler's casts: Type::cast_* + from_components_unchecked
+    let x = Arc::new(ms.clone());
+    let f = || Arc::new(Miniscript::<Pk, Ctx>::FALSE);
+    let casts: [(&str, Result<Type, miniscript::miniscript::types::ErrorKind>, Terminal<Pk, Ctx>, Node); 10] = [
+        ("cast:c", Type::cast_check(ms.ty), Terminal::Check(x.clone()), Node::Check(bx(node.clone()))),
+        ("cast:d", Type::cast_dupif(ms.ty), Terminal::DupIf(x.clone()), Node::DupIf(bx(node.clone()))),
+        ("cast:l", Type::cast_likely(ms.ty), Terminal::OrI(f(), x.clone()), Node::OrI(bx(Node::False), bx(node.clone()))),
+        ("cast:u", Type::cast_unlikely(ms.ty), Terminal::OrI(x.clone(), f()), Node::OrI(bx(node.clone()), bx(Node::False))),
+        ("cast:v", Type::cast_verify(ms.ty), Terminal::Verify(x.clone()), Node::Verify(bx(node.clone()))),
+        ("cast:j", Type::cast_nonzero(ms.ty), Terminal::NonZero(x.clone()), Node::NonZero(bx(node.clone()))),
+        ("cast:t", Type::cast_true(ms.ty), Terminal::AndV(x.clone(), Arc::new(Miniscript::<Pk, Ctx>::TRUE)), Node::AndV(bx(node.clone()), bx(Node::True))),
+        ("cast:s", Type::cast_swap(ms.ty), Terminal::Swap(x.clone()), Node::Swap(bx(node.clone()))),
+        ("cast:a", Type::cast_alt(ms.ty), Terminal::Alt(x.clone()), Node::Alt(bx(node.clone()))),
+        ("cast:n", Type::cast_zeronotequal(ms.ty), Terminal::ZeroNotEqual(x.clone()), Node::ZeroNotEqual(bx(node.clone()))),
+    ];
+    for (name, ty, term, n2) in casts {
+        if let Ok(ty) = ty {
+            if n2.size() > 48 { continue; }
+            let ext = ExtData::type_check(&term);
+            let m2 = Miniscript::from_components_unchecked(term, ty, ext);
+            // the cast's answer depends on the child's type only: one result per (cast, child type)
+            // is executed unless that very fragment has been judged already
+            let force = !seen.contains(&n2.wire()) && strata.insert(format!("{} {}", name, ts(&ms.ty)));
+            emit_route_j(out, ctx, name, &n2, &m2, force);
+        }
+    }
+}
+
+/// decode route (defined for the context's own key type)
+fn route_decode<Ctx: ScriptContext>(out: &mut Out, ctx: CtxK, node: &Node)
+where Ctx::Key: msops::HKey + crate::c10b::Atom
+{
+    let ms: Miniscript<Ctx::Key, Ctx> = match ast::to_ms(node) { Ok(m) => m, Err(_) => return };
+    let script = ms.encode();
+    match Miniscript::<Ctx::Key, Ctx>::decode_with_validation_params(&script, &miniscript::ValidationParams::MAX) {
+        Ok(d) => match crate::c10b::from_ms(&d) {
+            Some(n2) => emit_route(out, ctx, "decode", &n2, &d),
+            None => out.count("route decode: decoded value has an atom outside the tables"),
+        },
+        Err(_) => out.count(&format!("observation: decode refuses the library's own encoding of a {:?} fragment", ms.ty.corr.base)),
+    }
+}
+
+/// the unchecked constructors
+fn route_ctors<Pk: msops::HKey + crate::c10b::Atom, Ctx: ScriptContext>(out: &mut Out, ctx: CtxK) {
+    use miniscript::bitcoin::hashes::Hash;
+    use miniscript::{AbsLockTime, RelLockTime};
+    let k = ast::ctx_keys(ctx, 3);
+    let tap = ctx == CtxK::Tap;
+    let mut v: Vec<(Node, Miniscript<Pk, Ctx>)> = vec![
+        (Node::True, Miniscript::TRUE), (Node::False, Miniscript::FALSE),
+    ];
+    let mut keys = k.clone();
+    if matches!(ctx, CtxK::Bare | CtxK::Legacy) { keys.push(100); }
+    for id in keys {
+        v.push((Node::PkK(id), Miniscript::pk_k(Pk::of(id))));
+        v.push((Node::PkH(id), Miniscript::pk_h(Pk::of(id))));
+        v.push((Node::Check(bx(Node::PkK(id))), Miniscript::pk(Pk::of(id))));
+        v.push((Node::Check(bx(Node::PkH(id))), Miniscript::pkh(Pk::of(id))));
+        v.push((Node::RawPkH(id), Miniscript::expr_raw_pkh(ast::raw_pkh(id))));
+    }
+    for n in [1u32, 16, 17, 100, 499_999_999, 500_000_000, 500_000_001] {
+        v.push((Node::After(n), Miniscript::after(AbsLockTime::from_consensus(n).unwrap())));
+    }
+    for n in [1u32, 16, 65_535, 4_194_305] {
+        v.push((Node::Older(n), Miniscript::older(RelLockTime::from_consensus(n).unwrap())));
+    }
+    for h in 0..2u32 {
+        v.push((Node::Hash(HK::Sha256, h), Miniscript::sha256(Hash::from_slice(&ast::hash_value(HK::Sha256, h)).unwrap())));
+        v.push((Node::Hash(HK::Hash256, h), Miniscript::hash256(Hash::from_slice(&ast::hash_value(HK::Hash256, h)).unwrap())));
+        v.push((Node::Hash(HK::Ripemd160, h), Miniscript::ripemd160(Hash::from_slice(&ast::hash_value(HK::Ripemd160, h)).unwrap())));
+        v.push((Node::Hash(HK::Hash160, h), Miniscript::hash160(Hash::from_slice(&ast::hash_value(HK::Hash160, h)).unwrap())));
+    }
+    let b = if tap { 200 } else { 0 };
+    for (kk, ids) in [(1usize, vec![b]), (1, vec![b, b + 1]), (2, vec![b, b + 1]), (2, vec![b + 2, b, b + 1]), (3, vec![b + 9, b + 8, b + 1]), (4, vec![b, b + 1, b + 2, b + 3])] {
+        let pks: Vec<Pk> = ids.iter().map(|i| Pk::of(*i)).collect();
+        if tap {
+            v.push((Node::MultiA(kk, ids.clone()), Miniscript::multi_a(Threshold::new(kk, pks.clone()).unwrap())));
+            v.push((Node::SortedMultiA(kk, ids.clone()), Miniscript::sortedmulti_a(Threshold::new(kk, pks).unwrap())));
+        } else {
+            v.push((Node::Multi(kk, ids.clone()), Miniscript::multi(Threshold::new(kk, pks.clone()).unwrap())));
+            v.push((Node::SortedMulti(kk, ids.clone()), Miniscript::sortedmulti(Threshold::new(kk, pks).unwrap())));
+        }
+    }
+    for (n, ms) in v {
+        // constructors are always executed: they are a separate typing table
+        let w = n.wire();
+        let script = ast::hex(ms.encode().as_bytes());
+        out.line(&format!("C typeofstr {} ctor {}", ctx.name(), w), &ts(&ms.ty));
+        out.line(&format!("C encodestr {} ctor {}", ctx.name(), w), &script);
+        out.line(&format!("J typeexec {} {} {} {}", ctx.name(), w, script, ts(&ms.ty)), "ok");
+    }
+}
+
+/// the policy compiler: every node of every compilation carries a type built by the casts
+fn route_compile<Pk: msops::HKey + crate::c10b::Atom, Ctx: ScriptContext>(out: &mut Out, ctx: CtxK) {
+    use miniscript::bitcoin::hashes::Hash;
+    use miniscript::policy::Concrete as P;
+    let k = ast::ctx_keys(ctx, 4);
+    let key = |i: usize| Arc::new(P::<Pk>::Key(Pk::of(k[i])));
+    let older = |n: u32| Arc::new(P::<Pk>::Older(miniscript::RelLockTime::from_consensus(n).unwrap()));
+    let after = |n: u32| Arc::new(P::<Pk>::After(miniscript::AbsLockTime::from_consensus(n).unwrap()));
+    let sha = Arc::new(P::<Pk>::Sha256(Hash::from_slice(&ast::hash_value(HK::Sha256, 0)).unwrap()));
+    let h160 = Arc::new(P::<Pk>::Hash160(Hash::from_slice(&ast::hash_value(HK::Hash160, 1)).unwrap()));
+    let and = |v: Vec<Arc<P<Pk>>>| Arc::new(P::And(v));
+    let or = |v: Vec<(usize, Arc<P<Pk>>)>| Arc::new(P::Or(v));
+    let thr = |kk: usize, v: Vec<Arc<P<Pk>>>| Arc::new(P::Thresh(Threshold::new(kk, v).unwrap()));
+    let pols: Vec<Arc<P<Pk>>> = vec![
+        key(0), and(vec![key(0), key(1)]), or(vec![(1, key(0)), (1, key(1))]), or(vec![(9, key(0)), (1, key(1))]),
+        and(vec![key(0), older(10)]), or(vec![(1, key(0)), (1, and(vec![key(1), older(144)]))]),
+        or(vec![(99, key(0)), (1, and(vec![key(1), after(100)]))]),
+        and(vec![key(0), sha.clone()]), or(vec![(1, and(vec![key(0), sha.clone()])), (1, and(vec![key(1), h160.clone()]))]),
+        thr(2, vec![key(0), key(1), key(2)]), thr(2, vec![key(0), key(1), and(vec![key(2), older(10)])]),
+        thr(3, vec![key(0), key(1), key(2), key(3)]), thr(1, vec![key(0), key(1), key(2)]),
+        and(vec![or(vec![(1, key(0)), (1, key(1))]), or(vec![(1, key(2)), (1, and(vec![key(3), after(500_000_001)]))])]),
+        or(vec![(1, thr(2, vec![key(0), key(1), key(2)])), (1, and(vec![key(3), older(4_194_305)]))]),
+        or(vec![(1, key(0)), (1, or(vec![(1, and(vec![key(1), sha.clone()])), (1, and(vec![key(2), older(10)]))]))]),
+        // thresholds whose members need several inputs (a: rather than s:), nested disjunctions
+        thr(2, vec![or(vec![(1, key(0)), (1, key(1))]), key(2), key(3)]),
+        thr(2, vec![and(vec![key(0), sha.clone()]), or(vec![(1, key(1)), (1, key(2))]), key(3)]),
+        thr(2, vec![thr(2, vec![key(0), key(1), key(2)]), key(3), and(vec![key(0), h160.clone()])]),
+        or(vec![(1, and(vec![key(0), key(1)])), (1, and(vec![key(2), key(3)]))]),
+        thr(1, vec![and(vec![key(0), older(10)]), and(vec![key(1), after(100)])]),
+        and(vec![key(0), or(vec![(1, older(10)), (1, sha.clone())])]),
+        and(vec![key(0), or(vec![(1, older(10)), (9, key(1))])]),
+        thr(3, vec![key(0), or(vec![(1, key(1)), (1, key(2))]), older(10), sha.clone()]),
+        or(vec![(1, and(vec![key(0), or(vec![(1, key(1)), (3, h160.clone())])])), (2, thr(2, vec![key(1), key(2), key(3)]))]),
+    ];
+    fn walk<Pk: msops::HKey + crate::c10b::Atom, Ctx: ScriptContext>(out: &mut Out, ctx: CtxK, ms: &Miniscript<Pk, Ctx>, seen: &mut BTreeSet<String>) {
+        if let Some(n) = crate::c10b::from_ms(ms) {
+            if n.size() <= 48 && seen.insert(n.wire()) { emit_route_j(out, ctx, "compile", &n, ms, true); }
+        }
+        use Terminal::*;
+        match ms.as_inner() {
+            Alt(x) | Swap(x) | Check(x) | DupIf(x) | Verify(x) | NonZero(x) | ZeroNotEqual(x) => walk(out, ctx, x, seen),
+            AndV(a, b) | AndB(a, b) | OrB(a, b) | OrD(a, b) | OrC(a, b) | OrI(a, b) => { walk(out, ctx, a, seen); walk(out, ctx, b, seen) }
+            AndOr(a, b, c) => { walk(out, ctx, a, seen); walk(out, ctx, b, seen); walk(out, ctx, c, seen) }
+            Thresh(t) => for x in t.iter() { walk(out, ctx, x, seen) },
+            _ => {}
+        }
+    }
+    let mut seen = BTreeSet::new();
+    for p in pols {
+        // a panic inside the compiler is not a claim of this property: counted, the stream goes on
+        match std::panic::catch_unwind(std::panic::AssertUnwindSafe(|| p.compile::<Ctx>())) {
+            Ok(Ok(ms)) => walk(out, ctx, &ms, &mut seen),
+            Ok(Err(_)) => out.count("route compile: policy not compilable in this context"),
+            Err(_) => out.count("observation: the policy compiler panicked (outside this property's statement)"),
+        }
+    }
+}
+
+fn emit_routes(out: &mut Out, ctx: CtxK, all: &[Node], seen: &BTreeSet<String>) {
+    use miniscript::{BareCtx, Legacy, Segwitv0, Tap};
+    let mut strata = BTreeSet::new();
+    for node in all {
+        with_ctx!(ctx, routes_generic(out, ctx, node, seen, &mut strata));
+        match ctx {
+            CtxK::Bare => route_decode::<BareCtx>(out, ctx, node), CtxK::Legacy => route_decode::<Legacy>(out, ctx, node),
+            CtxK::Segwitv0 => route_decode::<Segwitv0>(out, ctx, node), CtxK::Tap => route_decode::<Tap>(out, ctx, node),
+        }
+    }
+    with_ctx!(ctx, route_ctors(out, ctx));
+    with_ctx!(ctx, route_compile(out, ctx));
+}
+
+/* ------------------------------------------------------------------ refused today (R2)
+   One fragment per child-type requirement of every wrapper / combinator, violating exactly that
+   requirement.  What from_ast answers is compared with the model (`C typeofctx`); should the
+   library ACCEPT one, its type is judged by execution like any other fragment. */
+
+fn refused_today(ctx: CtxK) -> Vec<(&'static str, Node)> {
+    use Node::*;
+    let k = ast::ctx_keys(ctx, 3);
+    let (a, b, c) = (k[0], k[1], k[2]);
+    let pk = |i: u32| Check(bx(PkK(i)));
+    let vpk = |i: u32| Verify(bx(Check(bx(PkK(i)))));
+    let wpk = |i: u32| Swap(bx(Check(bx(PkK(i)))));
+    let nd = || AndV(bx(vpk(a)), bx(pk(b)));                       // B, not d
+    let nu = || DupIf(bx(Verify(bx(True))));                        // B d, not u
+    let multi2 = || if ctx == CtxK::Tap { MultiA(2, vec![a, b]) } else { Multi(2, vec![a, b]) };
+    vec![
+        ("a: over V", Alt(bx(vpk(a)))), ("a: over K", Alt(bx(PkK(a)))), ("a: over W", Alt(bx(wpk(a)))),
+        ("s: over B z", Swap(bx(True))), ("s: over B any", Swap(bx(multi2()))), ("s: over V", Swap(bx(vpk(a)))), ("s: over K o", Swap(bx(PkK(a)))),
+        ("c: over B", Check(bx(pk(a)))), ("c: over V", Check(bx(vpk(a)))),
+        ("d: over B", DupIf(bx(True))), ("d: over V o", DupIf(bx(vpk(a)))), ("d: over K", DupIf(bx(PkK(a)))),
+        ("v: over V", Verify(bx(vpk(a)))), ("v: over K", Verify(bx(PkK(a)))), ("v: over W", Verify(bx(wpk(a)))),
+        ("j: over B z", NonZero(bx(True))), ("j: over B o not n", NonZero(bx(OrI(bx(True), bx(False))))), ("j: over B any not n", NonZero(bx(OrI(bx(pk(a)), bx(False))))), ("j: over V n", NonZero(bx(vpk(a)))),
+        ("n: over V", ZeroNotEqual(bx(vpk(a)))), ("n: over K", ZeroNotEqual(bx(PkK(a)))),
+        ("and_v: left B", AndV(bx(pk(a)), bx(pk(b)))), ("and_v: left K", AndV(bx(PkK(a)), bx(pk(b)))), ("and_v: right W", AndV(bx(vpk(a)), bx(wpk(b)))),
+        ("and_b: right B", AndB(bx(pk(a)), bx(pk(b)))), ("and_b: left V", AndB(bx(vpk(a)), bx(wpk(b)))), ("and_b: left W", AndB(bx(wpk(a)), bx(wpk(b)))), ("and_b: right K", AndB(bx(pk(a)), bx(PkK(b)))),
+        ("or_b: left not d", OrB(bx(nd()), bx(wpk(c)))), ("or_b: right not d", OrB(bx(pk(a)), bx(Alt(bx(nd()))))), ("or_b: right B", OrB(bx(pk(a)), bx(pk(b)))), ("or_b: left V", OrB(bx(vpk(a)), bx(wpk(b)))),
+        ("or_c: left not d", OrC(bx(nd()), bx(vpk(c)))), ("or_c: left not u", OrC(bx(nu()), bx(vpk(a)))), ("or_c: right B", OrC(bx(pk(a)), bx(pk(b)))), ("or_c: left V", OrC(bx(vpk(a)), bx(vpk(b)))),
+        ("or_d: left not d", OrD(bx(nd()), bx(pk(c)))), ("or_d: left not u", OrD(bx(nu()), bx(pk(a)))), ("or_d: right V", OrD(bx(pk(a)), bx(vpk(b)))), ("or_d: right K", OrD(bx(pk(a)), bx(PkK(b)))), ("or_d: left V", OrD(bx(vpk(a)), bx(pk(b)))),
+        ("or_i: B and V", OrI(bx(pk(a)), bx(vpk(b)))), ("or_i: K and B", OrI(bx(PkK(a)), bx(pk(b)))), ("or_i: W and W", OrI(bx(wpk(a)), bx(wpk(b)))),
+        ("andor: first not d", AndOr(bx(nd()), bx(pk(c)), bx(pk(a)))), ("andor: first not u", AndOr(bx(nu()), bx(pk(a)), bx(pk(b)))), ("andor: first V", AndOr(bx(vpk(a)), bx(pk(b)), bx(pk(c)))),
+        ("andor: B and V", AndOr(bx(pk(a)), bx(pk(b)), bx(vpk(c)))), ("andor: K and B", AndOr(bx(pk(a)), bx(PkK(b)), bx(pk(c)))), ("andor: W and W", AndOr(bx(pk(a)), bx(wpk(b)), bx(wpk(c)))),
+        ("thresh: first W", Thresh(1, vec![wpk(a), wpk(b)])), ("thresh: first V", Thresh(1, vec![vpk(a), wpk(b)])), ("thresh: first not d", Thresh(1, vec![nd(), wpk(c)])), ("thresh: first not u", Thresh(1, vec![nu(), wpk(a)])),
+        ("thresh: second B", Thresh(1, vec![pk(a), pk(b)])), ("thresh: second not d", Thresh(2, vec![pk(c), Alt(bx(nd()))])), ("thresh: second not u", Thresh(2, vec![pk(a), Alt(bx(nu()))])),
+        ("thresh: third B", Thresh(2, vec![pk(a), wpk(b), pk(c)])), ("thresh: third V", Thresh(2, vec![pk(a), wpk(b), vpk(c)])), ("thresh: third not d", Thresh(2, vec![pk(c), wpk(c), Alt(bx(nd()))])), ("thresh: third not u", Thresh(2, vec![pk(a), wpk(b), Alt(bx(nu()))])),
+    ]
+}
+
+fn emit_refused<Pk: msops::HKey, Ctx: ScriptContext>(out: &mut Out, ctx: CtxK) {
+    for (why, n) in refused_today(ctx) {
+        let a = match build_kind::<Pk, Ctx>(&n) { Ok(ms) => ts(&ms.ty), Err(k) => k.to_string() };
+        out.line(&format!("C typeofctx {} {}", ctx.name(), n.wire()), &a);
+        match ast::to_ms::<Pk, Ctx>(&n) {
+            Ok(ms) => {
+                // refused by the specification's rule, accepted by the library: judged like any fragment
+                out.count(&format!("refused-today fragment ACCEPTED by the library ({})", why));
+                emit_ms(out, ctx, &n, &ms, "typeexec");
+            }
+            Err(_) => out.count("refused-today fragment refused"),
+        }
+    }
+}
+
+/* ------------------------------------------------------------------ combinators over casts (R5) */
+
+fn cast_towers(ctx: CtxK) -> Vec<Node> {
+    use Node::*;
+    let k = ast::ctx_keys(ctx, 3);
+    let (a, b, c) = (k[0], k[1], k[2]);
+    let pk = |i: u32| Check(bx(PkK(i)));
+    let pkh = |i: u32| Check(bx(PkH(i)));
+    let t = |x: Node| AndV(bx(x), bx(True));           // t:X
+    let l = |x: Node| OrI(bx(False), bx(x));            // l:X
+    let u = |x: Node| OrI(bx(x), bx(False));            // u:X
+    let v = |x: Node| Verify(bx(x));
+    let m = || if ctx == CtxK::Tap { MultiA(2, vec![a, b, c]) } else { Multi(2, vec![a, b, c]) };
+    let atoms: Vec<Node> = vec![pk(a), pkh(b), Hash(HK::Sha256, 0), Hash(HK::Hash160, 1), After(100), Older(10), m()];
+    let mut out = vec![];
+    for x in &atoms {
+        let casts = [t(v(x.clone())), l(x.clone()), u(x.clone())];
+        for cx in casts.iter() {
+            // every wrapper and every combinator position over the cast
+            out.push(cx.clone());
+            out.push(Alt(bx(cx.clone()))); out.push(Swap(bx(cx.clone()))); out.push(DupIf(bx(v(cx.clone()))));
+            out.push(v(cx.clone())); out.push(NonZero(bx(cx.clone()))); out.push(ZeroNotEqual(bx(cx.clone())));
+            out.push(t(v(cx.clone()))); out.push(l(cx.clone())); out.push(u(cx.clone()));
+            out.push(AndV(bx(v(cx.clone())), bx(pk(c)))); out.push(AndV(bx(v(pk(c))), bx(cx.clone())));
+            out.push(AndB(bx(cx.clone()), bx(Alt(bx(pk(c)))))); out.push(AndB(bx(pk(c)), bx(Alt(bx(cx.clone())))));
+            out.push(OrB(bx(cx.clone()), bx(Alt(bx(pk(c)))))); out.push(OrB(bx(pk(c)), bx(Alt(bx(cx.clone())))));
+            out.push(OrD(bx(cx.clone()), bx(pk(c)))); out.push(OrD(bx(pk(c)), bx(cx.clone())));
+            out.push(OrC(bx(cx.clone()), bx(v(pk(c))))); out.push(OrC(bx(pk(c)), bx(v(cx.clone()))));
+            out.push(OrI(bx(cx.clone()), bx(pk(c)))); out.push(OrI(bx(pk(c)), bx(cx.clone())));
+            out.push(AndOr(bx(cx.clone()), bx(pk(c)), bx(pk(a)))); out.push(AndOr(bx(pk(c)), bx(cx.clone()), bx(pk(a))));
+            out.push(AndOr(bx(pk(c)), bx(pk(a)), bx(cx.clone())));
+            out.push(Thresh(1, vec![cx.clone()])); out.push(Thresh(2, vec![cx.clone(), Swap(bx(pk(c))), Alt(bx(cx.clone()))]));
+            out.push(Thresh(2, vec![pk(c), Alt(bx(cx.clone())), Alt(bx(u(pk(a))))]));
+        }
+    }
+    out
+}
+
 pub fn run(out: &mut Out, thorough: bool, seed: u64) {
     let mut rng = Rng(seed ^ 0xC06);
     ast::emit_defs(out);
@@ -609,6 +971,16 @@ pub fn run(out: &mut Out, thorough: bool, seed: u64) {
                 n_frag += 1; all.push(node); out.count("dimension corpus fragment");
             } else { out.count("dimension corpus fragment refused by the library in this context"); }
         }
+        // the FULL set of wrapper towers (dimension_corpus carries a thin slice only): every tower
+        // of two or three wrappers over every atom kind, also as the bare tower (any base type)
+        for node in ast::wrapper_towers(ctx) {
+            if node.size() > 48 || !seen.insert(node.wire()) { continue; }
+            let mut ks = vec![]; node.keys(&mut ks); ks.sort(); ks.dedup();
+            let large = ks.len() > 3 || node.size() > 14;
+            if with_ctx!(ctx, emit_one(out, ctx, &node, if large { "typeexecq" } else { op })) {
+                n_frag += 1; all.push(node); out.count("wrapper tower fragment");
+            } else { out.count("wrapper tower refused by the library in this context"); }
+        }
         let atoms = ast::default_atoms(ctx, true);
         let (depth, quota) = if thorough { (3, 30) } else { (3, 7) };
         let frags = ast::enumerate(ctx, &atoms, depth, quota, &mut rng);
@@ -627,8 +999,18 @@ pub fn run(out: &mut Out, thorough: bool, seed: u64) {
         let em = with_ctx!(ctx, matrix(out, ctx, thorough, &mut rng, &mut seen));
         n_frag += em.len() as u64;
         all.extend(em);
-        // parser path for every judged fragment
+        // combinators and wrappers over the casts t: / l: / u: (acceptance decided by the library)
+        for node in cast_towers(ctx) {
+            if node.size() > 48 || !seen.insert(node.wire()) { continue; }
+            // light input enumeration; the specification's satisfying (each signing subset) and
+            // dissatisfying witnesses are executed in every tier
+            if with_ctx!(ctx, emit_one(out, ctx, &node, "typeexecq")) { n_frag += 1; all.push(node); out.count("cast tower fragment"); }
+            else { out.count("cast tower candidate refused by the library"); }
+        }
+        with_ctx!(ctx, emit_refused(out, ctx));
+        // parser path and every other route for every judged fragment
         for node in &all { emit_str(out, ctx, node, "typeexecq"); }
+        emit_routes(out, ctx, &all, &seen);
     }
     emit_ctx_acceptance(out);
     // negative controls: a deliberately too strong type for a known fragment must be refuted by
@@ -657,7 +1039,7 @@ pub fn run(out: &mut Out, thorough: bool, seed: u64) {
     let total = out.hist.get("script executions (input stacks x transaction settings)").cloned().unwrap_or(0);
     out.note("executions_total", total.to_string());
     out.note("domain", format!(
-        "TESTS (not proofs) of the type letters on {} fragments / {} script executions. FRAGMENTS: hand corpus; all base types B/V/K/W enumerated by ast::enumerate to depth 3 (quota-thinned); RULE MATRIX: every wrapper / combinator applied to one representative of every distinct Miniscript::ty the library has produced (closure over {} levels from the leaves 0, 1, pk_k, pk_h, raw pkh, after, older, the 4 hash kinds, multi/multi_a with k = 1 .. n, sortedmulti), unary rules on every full type, binary rules / thresh / andor on every tuple of correctness-class representatives and every tuple of (base, malleability)-class representatives, acceptance decided by the library's from_ast alone{}; every judged fragment also goes through from_str (plain and alias spelling). INPUTS per fragment (exhaustive part first): tier 1 (`typeexec`): ALL stacks of length <= 3 over the fragment's alphabet A (5 fixed values [], 01, 02, 00, 80; one valid signature per key; each key serialisation; a wrong-key signature; an invalid signature; each preimage; a wrong preimage; 32 zero bytes; 33-byte junk: |A| = 6..24) + length 4 over the core alphabet (thinned to <= 2000); tier 0 (`typeexecq`, large fragments and deeper matrix levels): ALL stacks of length <= 2 over A + length 3 over the core alphabet (thinned to <= 600); tier 2 (`typeexecx`, thorough): ALL of length <= 3 + length 4 over A (thinned to <= 20000) + length 5 core (thinned to <= 5000); always above the sentinel [aa],[bb], under 1 (no lock) or 3 (nLockTime, nSequence) settings, W fragments with 2 values of the top element. The exact count per fragment is on its `C typeexecdom` line (recomputed by the driver). LETTERS: shape (B/V/K/W), z, o, n, u, f, s are universally quantified claims, tested on EVERY enumerated run of the fragment; z / o additionally compare with the run on the empty / one-element stack; d is existential: a witness is searched among the enumerated signature-free inputs plus the specification's canonical dissatisfaction (SatTable.dsatWit), and the witness found is executed",
+        "TESTS (not proofs) of the type letters on {} fragments / {} script executions. FRAGMENTS: hand corpus; all base types B/V/K/W enumerated by ast::enumerate to depth 3 (quota-thinned); RULE MATRIX: every wrapper / combinator applied to one representative of every distinct Miniscript::ty the library has produced (closure over {} levels from the leaves 0, 1, pk_k, pk_h, raw pkh, after, older, the 4 hash kinds, multi/multi_a with k = 1 .. n, sortedmulti), unary rules on every full type, binary rules / thresh / andor on every tuple of correctness-class representatives and every tuple of (base, malleability)-class representatives, acceptance decided by the library's from_ast alone{}; the full ast::wrapper_towers and combinator-over-cast towers (t:v:X / l:X / u:X under every wrapper and in every combinator position); 62 refused-today fragments per context (one violated child requirement each; executed if the library accepts one). ROUTES: every judged fragment also goes through from_str (plain and alias spelling), decode(encode), translate_pk (key rotation), the 10 compiler casts (Type::cast_* + from_components_unchecked), and the stream adds the leaf constructors and every node of 16 compiled policies per context; each result (top node and every subnode) is compared with the model and with the from_ast route and executed under its own type when they differ (constructors, compiled nodes and one cast result per (cast, child type) are always executed). INPUTS per fragment (exhaustive part first): tier 1 (`typeexec`): ALL stacks of length <= 3 over the fragment's alphabet A (5 fixed values [], 01, 02, 00, 80; one valid signature per key; each key serialisation; a wrong-key signature; an invalid signature; each preimage; a wrong preimage; 32 zero bytes; 33-byte junk: |A| = 6..24) + length 4 over the core alphabet (thinned to <= 2000); tier 0 (`typeexecq`, large fragments and deeper matrix levels): ALL stacks of length <= 2 over A + length 3 over the core alphabet (thinned to <= 600); tier 2 (`typeexecx`, thorough): ALL of length <= 3 + length 4 over A (thinned to <= 20000) + length 5 core (thinned to <= 5000); always above the sentinel [aa],[bb], under 1 (no lock) or 3 (nLockTime, nSequence) settings, W fragments with 2 values of the top element. The exact count per fragment is on its `C typeexecdom` line (recomputed by the driver). LETTERS: shape (B/V/K/W), z, o, n, u, f, s are universally quantified claims, tested on EVERY enumerated run of the fragment; z / o additionally compare with the run on the empty / one-element stack; d is existential: a witness is searched among the enumerated signature-free inputs plus the specification's canonical dissatisfaction (SatTable.dsatWit), and the witness found is executed; the specification's canonical SATISFACTION is executed for every subset of the fragment's keys signing (<= 5 keys: all subsets; more: all, singletons, all-but-one)",
         n_frag, total, 3,
         if thorough { "; every accepted candidate is judged" } else { "; quick tier: one accepted candidate per (rule, base types of the children, resulting type) plus a seeded sample is judged, the thorough tier judges all" }));
 }
